@@ -88,6 +88,8 @@ fn generate(rng: &mut Rng) -> C17Sc {
     clients.sort_by_key(|c| c.connect_at_ns);
     let stop_at = match rng.below(4) {
         _ if crowd => ms(5300 + rng.range(0, 3000)),
+        // long after the last accept: only connections whose PROXY header took its time are still in progress
+        _ if proxy.is_some() && rng.chance(1, 4) => times.iter().copied().max().unwrap_or(0) + secs(timeout_s) + ms(rng.range(200, 6000)),
         // exactly at a connect instant
         0 | 1 if !times.is_empty() => *rng.pick(&times),
         2 => ms(rng.range(0, 12_000)),
